@@ -203,6 +203,7 @@ def run_case(case):
                 st_['timeout_stop'] += 1
             # 5. return value predicate from independent estimators
             r5 = Result()
+            Result._latest = res
             est = so.check_estimators(s, r5, 'c10', split,
                                       want_posterior=False)
             if est is not None and not r5.violations and not est['bad']:
